@@ -79,14 +79,14 @@ CLAIMED = {
             "trusted: the simulator's membership model; last-resort key packages are not exercised (feature not enabled in the build under test); known finding D10 listed in known_findings.json",
             "DESIGN.md §6.C07"),
     "C16": ("exploration",
-            "deterministic simulation with an external observer as a node: created from the GroupInfo of a seeded epoch with every max_epoch_jitter setting (unset, 0, 1, 3, epoch-1, epoch, epoch+1, 1000), fed the public handshake traffic in delivery-service order plus application ciphertexts of any age, snapshot / restore at seeded points, corrupted copies as faults, proposals issued as external sender",
-            "After every commit the observer's group context, roster and exported tree must equal the members' canonical record; it must accept every genuine public proposal and commit in DS order; ciphertexts of epochs inside [epoch - jitter, epoch] must be let through and older ones rejected (checked semantically, and the simulator is built with overflow checks so arithmetic wrap is a panic); bit flips and truncations of public messages must be rejected wherever the change is checkable without group secrets (i.e. outside the confirmation and membership tags) and leave the observer's snapshot unchanged; snapshot -> bytes -> load_group must give an identical observer; Add / Remove proposals it signs as a listed external sender must be accepted and committed by members (C01 oracle on the resulting epochs). Never a panic.",
+            "deterministic simulation with an external observer as a node: created from the GroupInfo of a seeded epoch with every max_epoch_jitter setting (unset, 0, 1, 3, epoch-1, epoch, epoch+1, 1000), fed the public handshake traffic in delivery-service order plus application ciphertexts of any age, snapshot / restore at seeded points, corrupted copies as faults, proposals issued as external sender; a third of the observers run with cache_proposals(false) and get accepted proposals handed back by the application (insert_proposal_from_message); a Byzantine member offers commits that refer to proposals of closed epochs",
+            "After every commit the observer's group context, roster and exported tree must equal the members' canonical record; it must accept every genuine public proposal and commit in DS order; ciphertexts of epochs inside [epoch - jitter, epoch] must be let through and older ones rejected (checked semantically, and the simulator is built with overflow checks so arithmetic wrap is a panic); bit flips and truncations of public messages must be rejected wherever the change is checkable without group secrets (i.e. outside the confirmation and membership tags) and leave the observer's snapshot unchanged; snapshot -> bytes -> load_group must give an identical observer; Add / Remove proposals it signs as a listed external sender must be accepted and committed by members (C01 oracle on the resulting epochs). After every epoch change the observer's proposal cache (get_cached_proposals) must be empty in both cache modes, and a commit correctly signed by a member that refers to a proposal of an earlier epoch must be rejected. Never a panic.",
             "trusted: c13::public_layout to decide which byte ranges an observer can check; public (unencrypted) handshake configuration only, because an observer cannot follow encrypted handshake traffic",
             "DESIGN.md §6.C16"),
     "C17": ("exploration",
             "deterministic simulation: old-group histories (sparse trees, identity changes) end in a re-init commit; successor creation and joining is then driven with the member set equal / strict subset / superset / one identity replaced, in shuffled order, with group-id and cipher-suite changes; branches are created at seeded points from subsets and supersets of the current members and joined by members at the same and at another epoch and by outsiders",
-            "After the re-init commit every member's old group must refuse to build further commits (and the simulated delivery service accepts none). ReinitClient::commit must succeed iff the key packages belong to exactly the old members; on success every old member joins through ReinitClient::join with a state (context, tree, authenticator) equal to the creator's at epoch 1, and a party without the old group state cannot join with the same Welcome. Group::branch must succeed iff the chosen parties are current members; each of them at the creator's epoch joins through join_subgroup with equal state; a member sitting at another epoch (other resumption secret) and an outsider must be refused.",
-            "trusted: canonical rosters of the old group; mismatched-Welcome variants beyond 'no old state' and 'resumption secret of another epoch' are not generated",
+            "After the re-init commit every member's old group must refuse to build further commits (and the simulated delivery service accepts none). ReinitClient::commit must succeed iff the key packages belong to exactly the old members; on success every old member joins through ReinitClient::join with a state (context, tree, authenticator) equal to the creator's at epoch 1, and a party without the old group state cannot join with the same Welcome. Group::branch must succeed iff the chosen parties are current members; each of them at the creator's epoch joins through join_subgroup with equal state; a member sitting at another epoch (other resumption secret) and an outsider must be refused. A look-alike successor / sub-group created from scratch with the announced group id, suite and extensions, the members' own key packages and epoch 1 - whose Welcome carries no resumption PSK - must be refused by ReinitClient::join and join_subgroup.",
+            "trusted: canonical rosters of the old group; mismatched-Welcome variants beyond 'no old state', 'resumption secret of another epoch' and 'no resumption PSK at all' are not generated",
             "DESIGN.md §6.C17"),
     "C14": ("exploration",
             "deterministic simulation of mixed-provider groups (each simulated member draws OpenSSL, AWS-LC, RustCrypto or deterministic RustCrypto) with an in-situ differential crypto seam: every deterministic primitive call the protocol makes is evaluated on a second provider and compared; randomised outputs of one provider are consumed by the others through the protocol",
@@ -99,8 +99,8 @@ CLAIMED = {
             "trusted: the counting allocator (thread-local, only active around the decode call); one known finding (non-canonical map order accepted in ExternalSnapshot) listed in known_findings.json",
             "DESIGN.md §6.C12"),
     "C10": ("exploration",
-            "deterministic simulation with proposal templates of known verdict (valid, or invalid for exactly one stated reason) by value and by reference, receivers that cached the proposals in different orders or miss one, and a forger (B-FORGE) that hand-writes correctly signed and MACed commits carrying invalid proposal sets",
-            "(1) Every commit an honest member builds is accepted by every member holding the referenced proposals (base liveness oracle), all members report the same applied proposals for a commit, and a receiver whose cache equals the committer's reports the same unused proposals; a member missing a referenced proposal rejects with its state unchanged and succeeds after redelivery. (2) By-value templates - removal of the committer, double removal, unknown PSK, the same key package twice, a credential the (common) identity policy rejects, re-init mixed with another proposal - make CommitBuilder::build fail with the member's state unchanged; the same violations arriving by reference (rejected credential, unknown PSK, conflicting updates / removals) are dropped, reported as unused and the commit is still accepted by all. (3) Forged public commits, signed with a real member's key under the genuine group context and MACed with the epoch's real membership key (hook H2), carrying remove-committer, double remove, two group-context-extensions, re-init plus another proposal, duplicate PSK id, removal of a non-member or an Add of an existing member, must be rejected by a proposal rule - not merely by the (random) confirmation tag - with the receiver unchanged; a forged commit with one valid Add must reach the confirmation-tag check (sanity of the forger).",
+            "deterministic simulation with proposal templates of known verdict (valid, or invalid for exactly one stated reason) by value and by reference, receivers that cached the proposals in different orders or miss one, a forger (B-FORGE) that hand-writes correctly signed and MACed commits carrying invalid proposal sets, and a Byzantine member (B-FORGE-UPDATE) whose correctly signed Update proposals re-use another member's HPKE key; members propose several Updates per epoch; a directed update-clash scenario puts all of these into one commit with every member holding the same cache",
+            "(1) Every commit an honest member builds is accepted by every member holding the referenced proposals (base liveness oracle), all members report the same applied proposals for a commit, and a receiver whose cache equals the committer's reports the same unused proposals; a member missing a referenced proposal rejects with its state unchanged and succeeds after redelivery. (2) By-value templates - removal of the committer, double removal, unknown PSK, the same key package twice, a credential the (common) identity policy rejects, re-init mixed with another proposal - make CommitBuilder::build fail with the member's state unchanged; the same violations arriving by reference (rejected credential, unknown PSK, conflicting updates / removals, a second Update of one leaf, an Update whose leaf collides in the tree) are dropped, reported as unused and the commit is still accepted by all. (3) Forged public commits, signed with a real member's key under the genuine group context and MACed with the epoch's real membership key (hook H2), carrying remove-committer, double remove, two group-context-extensions, re-init plus another proposal, duplicate PSK id, removal of a non-member or an Add of an existing member, must be rejected by a proposal rule - not merely by the (random) confirmation tag - with the receiver unchanged; a forged commit with one valid Add must reach the confirmation-tag check (sanity of the forger).",
             "trusted: the forger's wire writer (validated in every run by the valid-Add sanity template); templates not generated: capability / required-capabilities mismatches, expired key packages",
             "DESIGN.md §6.C10"),
 }
